@@ -429,7 +429,8 @@ def C07():
 def C17():
     from . import r_reg
     chk = Check("C17", "other",
-                "R-REG (framing of numerical quadrature): integrate<2>, integrate<5> for all window pairs and four "
+                "R-QUAD (every instantiation integrate<n> applies a Gauss rule of at least n points in the scalar type "
+                "and returns the scalar type) + R-REG (framing of numerical quadrature): integrate<2>, integrate<5> for all window pairs and four "
                 "order pairs: the quadrature extends over exactly the common intervals, evaluates both splines' "
                 "pieces of the same absolute interval between that interval's end points, and is exactly zero if "
                 "there is none. Gauss-Legendre exactness and rounding are not decided (Boost's rule is modelled as "
@@ -446,6 +447,9 @@ def C17():
     chk.note("regions_evaluated", total)
     chk.exhaustive = True
     chk.floor("R-REG.quad", chk.rules["R-REG.quad"]["instances"], 2, "quadrature cases")
+    from . import r_small
+    nq = r_small.r_quad(chk, _lib_units(["cases_off"]))
+    chk.floor("R-QUAD", nq, 10, "instantiations of integrate<n> (sizes 1, 2, 3, 5, 8, 11; T-, int- and float-valued weights)")
     return chk
 
 
@@ -502,6 +506,8 @@ def C20():
     _ro.invalidation(chk, units)
     _ro.frozen_statics(chk, units)
     _ro.returned_references(chk, units)
+    r_small.r_eigen_init(chk, units, lambda f: C.in_repo(f.decl["pfile"]))
+    r_small.r_arg_sequence(chk, units, lambda f: C.in_repo(f.decl["pfile"]))
     # library rules on what the examples instantiate
     chk.rule("R-GRD.a", "grid guard must-pass-through on the library instantiations created by the examples")
     ents = r_grd.run(chk, units)
@@ -513,7 +519,7 @@ def C20():
         raise AnalysisBroken("only %d example functions parsed" % nfun)
     from . import controls
     controls.require(chk, ['R-EX', 'R-OPT', 'R-GRD.a', 'R-OWN.field', 'R-LIFE', 'R-LIFE.inval', 'R-EFF.frozen',
-                            'R-LIFE.ret'])
+                            'R-LIFE.ret', 'R-LIFE.seq', 'R-EX.init'])
     return chk
 
 
@@ -576,12 +582,15 @@ def C09():
     r_own.invalidation(chk, units + _example_units())
     r_own.returned_references(chk, units + _example_units())
     r_own.api_returns(chk, units)
+    r_small.r_arg_sequence(chk, units + _example_units(), lambda f: C.in_repo(f.decl["pfile"]))
+    r_small.r_eigen_init(chk, units + _example_units(), lambda f: C.in_repo(f.decl["pfile"]))
     r_inv.grid_move(chk, units)
     chk.floor("R-REG.ub", chk.rules["R-REG.ub"]["instances"], 100, "(function, clause) obligations")
     # (no floor on R-OPT sites: a refactoring may legitimately remove optionals; the positive controls keep
     #  the rule from passing vacuously)
     from . import controls
-    controls.require(chk, ['R-OPT', 'R-OWN.field', 'R-LIFE', 'R-LIFE.inval', 'R-LIFE.ret', 'R-API.ret'])
+    controls.require(chk, ['R-OPT', 'R-OWN.field', 'R-LIFE', 'R-LIFE.inval', 'R-LIFE.ret', 'R-API.ret',
+                            'R-LIFE.seq', 'R-EX.init'])
     return chk
 
 
